@@ -328,3 +328,32 @@ func C04_Inject() {
 		nd.Assert(p == nil, "C04/inject/misplaced-symbol-accepted "+t.tail)
 	}
 }
+
+var _ = reg("C04_AfterError", C04_AfterError)
+
+// constructs that the grammar actions (not the grammar) reject
+var actionErrors = []string{
+	"($ like_regex \"(\")", "($ like_regex \"a\" flag \"x\")", "($ like_regex \"a\" flag \"iz\")", "$.a.decimal(1,2,3)", "$.a.decimal(1,2,3,4)",
+	"(9223372036854775808)", "(1e400)", "$ ? (@ like_regex \"[\")", "($.a like_regex \"a{2,1}\")",
+}
+
+var afterErrorTails = []string{
+	"[0]", ".*", "?(1==1)", ".a", ".type()", "[*]", ".**", " + 1", "[last]", ".decimal(1)", ".**{1}", ".keyvalue()", " == 1", " is unknown",
+	".datetime(\"a\")", "[0 to 1]", ".a.b", " && 1 == 1", ")", "",
+}
+
+// C04_AfterError: Parse stays total when input goes on after a construct
+// that a grammar action rejected (invalid regular expression or flag, too
+// many .decimal() arguments, literal out of range): every such construct
+// followed by every accessor / operator, with one further symbolic ASCII
+// byte: an error, never a panic, never a path.
+func C04_AfterError() {
+	h := actionErrors[nd.Choice(len(actionErrors))]
+	t := afterErrorTails[nd.Choice(len(afterErrorTails))]
+	extra := ""
+	if nd.Choice(2) == 1 {
+		extra = nd.ASCII(1)
+	}
+	p, _ := parseTotal("C04/after-error", h+t+extra)
+	nd.Assert(p == nil, "C04/after-error/invalid-construct-accepted "+h)
+}
